@@ -65,3 +65,31 @@ func FromObject(o object.Object) (val.V, error) {
 	}
 	return val.V{}, fmt.Errorf("not a data value: %s (%T)", o.Type(), o)
 }
+
+// ToObject builds a grol object from a plain value through the public constructors.
+func ToObject(v val.V) object.Object {
+	switch v.K {
+	case val.Int:
+		return object.Integer{Value: v.I}
+	case val.Float:
+		return object.Float{Value: v.F}
+	case val.Bool:
+		return object.NativeBoolToBooleanObject(v.B)
+	case val.Nil:
+		return object.NULL
+	case val.Str:
+		return object.String{Value: v.S}
+	case val.Arr:
+		els := make([]object.Object, len(v.A))
+		for i, e := range v.A {
+			els[i] = ToObject(e)
+		}
+		return object.NewArray(els)
+	default:
+		m := object.NewMapSize(len(v.M))
+		for _, p := range v.M {
+			m = m.Set(ToObject(p.K), ToObject(p.V))
+		}
+		return m
+	}
+}
